@@ -177,13 +177,14 @@ CLAIMS["C05"] = dict(
     text="WT env e τ types template expressions (text, text lists, condition values, plain data) over all sixteen functions; "
          "C05_resolve_progress proves by mutual induction on the derivation that every well-typed expression resolves (the model's "
          "`none`, i.e. every raise site of the resolver, is unreachable) to a value of its type; C05_resources_progress lifts it to the "
-         "resource table; C05_network_kept / C05_binary_kept state that typed leaves (a CIDR range of any width, decoded bytes) are handed "
+         "resource table, C05_conditions_progress (with the termination lemmas of C02) to the condition table, and C05_template_progress to "
+         "Template.resolveT: parameters bind, conditions and resources well typed ⇒ the template resolves; C05_network_kept / C05_binary_kept state that typed leaves (a CIDR range of any width, decoded bytes) are handed "
          "over in one step by the generic casting and the resolver (the sites of D13 and D11). The check runs whole templates over nine "
          "construct families (and a /0-magnified variant of each) through parse, resolve, expand_actions, every query on the three "
          "models and re-validation inside a worker under RLIMIT_AS with a wall clock computed from the size of the template only; "
          "in scope = Template.resolveT is defined on the parsed template.",
     note=TRUST + "partial: wall time, peak memory and process termination are runtime behaviour, measured in the sandbox against a size-derived budget, not proved; "
-                 "the typing judgement covers the string form of Fn::Sub (the map form is covered by correspondence in C01); pydantic-core's validation of typed models is trusted.")
+                 "the typing judgement covers both forms of Fn::Sub; pydantic-core's validation of typed models is trusted.")
 
 CLAIMS["C06"] = dict(
     technique="Lean 4 proof over a table of write sites regenerated from the source on every run (translator) + histories of API calls on shared objects with deep snapshots (correspondence), thread stress as testing",
